@@ -115,6 +115,31 @@ def gccWithoutPockets (cfg : TblCfg) (tol : Rat) (cH cNP : Nat) (rows : List Row
     let s2 ← removePocketsSide cfg tol cH cNP false s1
     .ok s2.rows
 
+/-! ### the specification: running minima towards the pinch -/
+
+def runMinFrom : Rat → List Rat → List Rat
+  | _, [] => []
+  | m, h :: t => min m h :: runMinFrom (min m h) t
+
+/-- running minimum of a column read from its first entry on -/
+def runMin : List Rat → List Rat
+  | [] => []
+  | h :: t => h :: runMinFrom h t
+
+/-- What `H_net_np` should be on a table whose closing temperatures are rows: above the hot pinch the
+    running minimum from the top, zero between the pinches, below the cold pinch the running minimum
+    from the bottom; the curve itself when no pinch is reported. -/
+def npSpec (tol : Rat) (H : List Rat) : List Rat :=
+  let p := pinchIdx tol H
+  if !p.valid then H
+  else runMin (H.take (p.rowH.toNat + 1)) ++ List.replicate (p.rowC.toNat - p.rowH.toNat - 1) 0
+    ++ ((runMin (H.drop p.rowC.toNat).reverse).reverse).drop (if p.rowC = p.rowH then 1 else 0)
+
+/-- every two values of the column are equal or at least `tol` apart, and no value lies strictly
+    between 0 and `tol`: then the sweep's tolerance tests are exact comparisons -/
+def tolClean (tol : Rat) (H : List Rat) : Bool :=
+  H.all fun a => (a = 0 || decide (tol ≤ rabs a)) && H.all fun b => a = b || decide (tol ≤ rabs (a - b))
+
 /-- `get_seperated_gcc_heat_load_profiles(H, is_process_stream=True)`: (H_hot_net, H_cold_net). -/
 def loadProfiles (tol : Rat) (H : List Rat) : List Rat × List Rat :=
   let d := 0 :: deltaVals tol H
